@@ -85,6 +85,22 @@ def check(P: Project, R: Report) -> None:
         where = f"{c['file']}:{c['line']}"
         rt = c["receiver_type"] or "None"
         by_alias = "by_alias" in (c["arg_names"] or []) or "by_alias" in _ast_keywords(P, mod, c["line"], c["name"])
+        if (rt in ("Any", "None") or rt.startswith("Any")) and c.get("receiver_name"):
+            # an untyped parameter of a module-level helper: typed one step up, by what its call sites pass
+            g_ = P.funcs.get(f"{mod}:{fn}")
+            if g_ is not None and g_.cls is None and c["receiver_name"] in g_.positional_params():
+                idx_ = g_.positional_params().index(c["receiver_name"])
+                sites_ = [x for x in facts["calls"] if x["kind"] == "pkgcall" and x["fullname"] == f"{mod}.{fn}"]
+                tys_ = []
+                for x in sites_:
+                    if idx_ < len(x["arg_types"]) and x["arg_names"][idx_] is None:
+                        tys_.append(x["arg_types"][idx_])
+                    elif c["receiver_name"] in (x["arg_names"] or []):
+                        tys_.append(x["arg_types"][x["arg_names"].index(c["receiver_name"])])
+                    else:
+                        tys_.append(None)
+                if sites_ and all(t_ and t_ != "Any" and not t_.startswith("Any") for t_ in tys_):
+                    rt = " | ".join(tys_)
         if rt in ("Any", "None") or rt.startswith("Any"):
             key = (mod, fn)
             seen_any.add(key)
@@ -262,7 +278,9 @@ def check(P: Project, R: Report) -> None:
     pa = fbm["_process_aliases"]
     inv = any(isinstance(n, ast.DictComp) and ast.unparse(n.key) != ast.unparse(n.value) and "__field_aliases__" in ast.unparse(n) for n in walk_local(pa))
     R.ob("R3", "fallback maps alias → field on input", inv, f"{base.rel}:{pa.lineno}", "")
-    out_alias = any(isinstance(n, (ast.If, ast.IfExp)) and "by_alias" in ast.unparse(n.test) and "__field_aliases__" in ast.unparse(n) for n in ast.walk(dump))
+    # (the alias map may be read into a local first: `aliases = self.__class__.__field_aliases__`)
+    alias_locals = {t.id for s_ in walk_local(dump) if isinstance(s_, ast.Assign) and "__field_aliases__" in ast.unparse(s_.value) for t in s_.targets if isinstance(t, ast.Name)}
+    out_alias = any(isinstance(n, (ast.If, ast.IfExp)) and "by_alias" in ast.unparse(n.test) and ("__field_aliases__" in ast.unparse(n) or any(isinstance(x, ast.Name) and x.id in alias_locals for x in ast.walk(n))) for n in ast.walk(dump))
     R.ob("R3", "fallback emits the alias under by_alias", out_alias, f"{base.rel}:{dump.lineno}", "")
     # class-level caches of the fallback must be keyed by class identity: class *names* are not unique in this package
     from .c09 import class_cache_keys
